@@ -36,7 +36,7 @@ Section EndToEnd.
   Variable upd : nat -> nat -> st mat (list F) X -> mat * X.
   Variable stop : nat -> st mat (list F) X -> bool.
   Variable normf : st mat (list F) X -> st mat (list F) X.
-  Variable pre : nat -> st mat (list F) X -> st mat (list F) X.
+  Variable pre : nat -> nat -> st mat (list F) X -> mat.
   Variable pre_on : nat -> bool.
   Variable post : nat -> st mat (list F) X -> X.
   Variable ls_on : nat -> bool.
@@ -49,13 +49,13 @@ Section EndToEnd.
   (* a fixed mode other than the last: the returned factor IS the supplied one, through the initialiser and any
      number of sweeps of any algorithm (hooks: as in run_fixed_hooks) *)
   Theorem fixed_end_to_end a n fixed budget tol R w (fs : list mat) x s' m d :
-    pre_keeps pre pre_on a m d -> ls_fixpoint lsf a ->
+    ls_fixpoint lsf a ->
     run a n fixed budget tol (start x (init_cp rI rmul eqb R w fs)) = Ok s' ->
     In m fixed -> (drops_last a = true -> m <> n - 1) -> m < length fs - 1 ->
     nth m (facs s') d = nth m fs d.
   Proof.
-    intros Hp Hls Hrun Hin Hl Hm.
-    rewrite (run_fixed_user_hooks upd stop normf pre pre_on post ls_on ls_accept lsf lsw lsx a n fixed budget tol _ s' d m Hp Hls Hrun Hin Hl).
+    intros Hls Hrun Hin Hl Hm.
+    rewrite (run_fixed_user upd stop normf pre pre_on post ls_on ls_accept lsf lsw lsx a n fixed budget tol _ s' d m Hls Hrun Hin Hl).
     unfold start. cbn [facs]. now apply init_cp_facs_other.
   Qed.
 
@@ -68,15 +68,15 @@ Section EndToEnd.
     if all_ones rI eqb w then nth (length fs - 1) fs [] else scale_cols rmul (nth (length fs - 1) fs []) w.
   Proof.
     intros Hrun Hin Hne.
-    rewrite (run_fixed_user_hooks upd stop normf pre pre_on post ls_on ls_accept lsf lsw lsx NNHals n fixed budget tol
+    rewrite (run_fixed_user upd stop normf pre pre_on post ls_on ls_accept lsf lsw lsx NNHals n fixed budget tol
                (start x (init_cp rI rmul eqb R (Some w) fs)) s' [] (length fs - 1));
-      [| intros H; discriminate | intros H; discriminate | exact Hrun | exact Hin | discriminate].
+      [| intros H; discriminate | exact Hrun | exact Hin | discriminate].
     unfold start, init_cp. destruct (all_ones rI eqb w); cbn [facs snd]; [reflexivity|]. now apply nth_absorb_last_last.
   Qed.
 End EndToEnd.
 
 Lemma hals_fixed_last_counterexample : exists (w : list Z) (fs : list (list (list Z))) s',
-  run (fun _ m s => (nth m (facs s) [], tt)) (fun _ _ => false) (fun s => s) false (fun _ s => s) (fun _ => false) (fun _ _ => tt)
+  run (fun _ m s => (nth m (facs s) [], tt)) (fun _ _ => false) (fun s => s) false (fun _ m s => nth m (facs s) []) (fun _ => false) (fun _ _ => tt)
       (fun _ => false) (fun _ _ _ => false) (fun _ _ l c => c) (fun _ _ l c => c) (fun _ _ _ => tt) NNHals 2 [1] 1 true
       (start tt (init_cp 1%Z Z.mul Z.eqb 1 (Some w) fs)) = Ok s' /\ In 1 [1] /\
   nth 1 (facs s') [] <> nth 1 fs [].
